@@ -225,6 +225,7 @@ bool ossOperationsFacet::SaveOperationResult(
   auto& opHandle = operations.at(pid);
   assert(opHandle != nullptr);
   const auto guard = core.DndGuard();
+  const auto oldHash = core.Src()(pid)->coreHash;
   if (!core.Src().InputData(pid, std::move(opResult.value))) {
     opHandle->broken = true;
     return false;
@@ -235,6 +236,9 @@ bool ossOperationsFacet::SaveOperationResult(
     for (const auto& child : core.Graph().ChildrenOf(pid)) {
       const auto index = core.Graph().ParentIndex(pid, child).value(); // NOLINT(bugprone-unchecked-optional-access)
       UpdateChild(child, index, old2New);
+    }
+    if (core.Src()(pid)->coreHash != oldHash) {
+      core.OnCoreChange(pid); // Note: notifications are muted by the guard, so mark results built from the previous version here
     }
     return true;
   }
